@@ -134,6 +134,21 @@ fn contains_random(e: &Expr) -> bool {
     }
 }
 
+/// Does the expression contain a piece of a Box-Muller transform (ln(random) or cos(.. random))?
+fn contains_bm_fragment(e: &Expr) -> bool {
+    match e {
+        Expr::Function(f) => {
+            let args = f.arguments();
+            match f.function() {
+                F::Ln | F::Cos | F::Sin | F::Log => args.iter().any(contains_random) || args.iter().any(contains_bm_fragment),
+                _ => args.iter().any(contains_bm_fragment),
+            }
+        }
+        Expr::Aggregate(a) => contains_bm_fragment(a.argument()),
+        _ => false,
+    }
+}
+
 fn collect_random(e: &Expr, out: &mut Vec<i64>) {
     match e {
         Expr::Function(f) => {
@@ -225,7 +240,7 @@ fn noise_map_of(map: &Map) -> Option<(NoiseMap, Vec<String>)> {
                 u2_site: u2,
                 clamp,
             });
-        } else if contains_random(expr) {
+        } else if contains_bm_fragment(expr) {
             unrec.push(format!("{}.{} = {}", map.name(), field.name(), expr));
         } else {
             plain.push(field.name().to_string());
@@ -412,27 +427,43 @@ pub fn clip_of(pre_noise: &Relation, col: &str) -> Option<f64> {
     if *agg.aggregate() != qrlew::expr::aggregate::Aggregate::Sum {
         return None;
     }
-    let a = agg.column().last().ok()?.to_string();
-    let m = match red.input() {
-        Relation::Map(m) => m,
-        _ => return None,
-    };
-    let (_, e) = m.field_exprs().into_iter().find(|(f, _)| f.name() == a)?;
-    let (f, args) = func(e)?;
-    if f != F::Multiply {
-        return None;
+    let mut name = agg.column().last().ok()?.to_string();
+    // follow plain renames through maps until the product `x * scale_factor`
+    let mut cur: &Relation = red.input();
+    let mut product: Option<(Vec<String>, &Relation)> = None;
+    for _ in 0..6 {
+        let m = match cur {
+            Relation::Map(m) => m,
+            _ => return None,
+        };
+        let (_, e) = m.field_exprs().into_iter().find(|(f, _)| f.name() == name)?;
+        match e {
+            Expr::Column(c) => {
+                name = c.last().ok()?.to_string();
+                cur = m.input();
+            }
+            other => {
+                let (f, args) = func(other)?;
+                if f != F::Multiply {
+                    return None;
+                }
+                let names: Vec<String> = args
+                    .iter()
+                    .filter_map(|x| match x {
+                        Expr::Column(c) => c.last().ok().map(|s| s.to_string()),
+                        _ => None,
+                    })
+                    .collect();
+                if names.len() != 2 {
+                    return None;
+                }
+                product = Some((names, m.input()));
+                break;
+            }
+        }
     }
-    let names: Vec<String> = args
-        .iter()
-        .filter_map(|x| match x {
-            Expr::Column(c) => c.last().ok().map(|s| s.to_string()),
-            _ => None,
-        })
-        .collect();
-    if names.len() != 2 {
-        return None;
-    }
-    let join = match m.input() {
+    let (names, below) = product?;
+    let join = match below {
         Relation::Join(j) => j,
         _ => return None,
     };
